@@ -23,7 +23,7 @@ def ensure_driver():
     import os, subprocess
     here = observe.HERE
     from tools import vlib
-    ok, log = vlib.build_target("Model/LRT.vo Model/Peg.vo Model/Entry.vo Proofs/EqDec.v")      # what Extract.v requires
+    ok, log = vlib.build_target("Model/LRT.vo Model/Transform.vo Model/Peg.vo Model/Entry.vo Proofs/EqDec.v")      # what Extract.v requires
     if not ok:
         raise RuntimeError("the model does not build: " + log[-800:])
     r = subprocess.run(["bash", os.path.join(here, "ocaml", "build.sh")], capture_output=True, text=True, timeout=900)
